@@ -1073,7 +1073,13 @@ class Machine:
                 return r
         # closure / fn-trait calls
         if ci.trait and head_ident(ci.trait) in ('Fn', 'FnMut', 'FnOnce') and ci.method in ('call', 'call_mut', 'call_once'):
-            return self.call_value(args[0], list(args[1].fields) if isinstance(args[1], Agg) and args[1].ty == 'tuple' else args[1:])
+            if len(args) > 1 and isinstance(args[1], Agg) and args[1].ty == 'tuple':
+                spread = list(args[1].fields)
+            elif len(args) > 1 and args[1] is UNIT:
+                spread = []
+            else:
+                spread = list(args[1:])
+            return self.call_value(args[0], spread)
         defs = getattr(getattr(frame.fn, 'module', self.module), 'defindex', self.defs)
         cached = defs.cache.get(func)
         if cached is None:
